@@ -105,6 +105,7 @@ def c09(run, ctx):
 
 
 def c10(run, ctx):
+    fam_iter.dispatch_rule(run, ctx)
     fam_iter.iter_state_machine(run, ctx, "<Matches as Iterator>::next", "find_iter")
     fam_vm.end_arm(run, ctx)
     fam_iter.iterator_impls(run, ctx, only=("Matches", "Split", "SplitN"))
@@ -121,6 +122,9 @@ def c11(run, ctx):
     # the two loops of try_replacen iterate with find_iter / captures_iter: both must be the same state machine
     fam_iter.iter_state_machine(run, ctx, "<Matches as Iterator>::next", "find_iter")
     fam_iter.iter_state_machine(run, ctx, "<CaptureMatches as Iterator>::next", "captures_iter")
+    import fam_flow as _ff
+    _ff.limit_provenance(run, ctx)
+    fam_iter.dispatch_rule(run, ctx)
     # the string-like replacers expand their template through Captures::expand / Expander
     fns, entries = fam_panic.scope_fns(ctx, "search")
     fam_panic.run(run, ctx, fns, "expand", restrict=lambda sp: sp.startswith("expand::") or sp in ("Captures::expand",) or sp.startswith("replacer::"))
@@ -186,6 +190,7 @@ def c20(run, ctx):
     fam_vm.state_methods(run, ctx)
     fam_vm.backtrack_cut(run, ctx)
     fam_vm.atomic_arms(run, ctx)
+    fam_vm.split_jmp_arms(run, ctx)      # every alternative is really created (pushed) where the program says so
     # the commit only happens where the compiler emits it
     import fam_tmpl as _t
     _t.builder_helpers(run, ctx)
@@ -311,6 +316,8 @@ def c03(run, ctx):
 
 
 def c12(run, ctx):
+    fam_enc.slot_rule(run, ctx)
+    fam_parse.names_api(run, ctx)
     fam_expand.id_char_rule(run, ctx)
     fam_expand.writers_agree(run, ctx)
     fam_expand.check_rule(run, ctx)
@@ -321,6 +328,8 @@ def c12(run, ctx):
 
 
 def c13(run, ctx):
+    fam_vm.run_returns(run, ctx)
+    fam_tmpl.compile_repeat(run, ctx)
     fam_xfer.analyzer_rule(run, ctx)
     fam_xfer.backref_validity(run, ctx)
     fam_tmpl.atomic_and_group_arms(run, ctx)
@@ -343,6 +352,7 @@ def c16(run, ctx):
 
 
 def c17(run, ctx):
+    fam_enc.any_arms_rule(run, ctx)
     fam_tmpl.builder_helpers(run, ctx)
     fam_tmpl.literal_fast_path(run, ctx)
     fam_enc.byte_class_tables(run, ctx)
@@ -412,6 +422,8 @@ def c15(run, ctx):
     fam_tmpl.ctx_rule(run, ctx)
     fam_parse.conditional_rule(run, ctx)
     fam_parse.backref_registration(run, ctx)
+    fam_parse.piece_keeps_atom(run, ctx)
+    fam_enc.wrap_tree_rule(run, ctx)
     fam_enc.any_arms_rule(run, ctx)
     fam_vm.backtrack_cut(run, ctx)
     fam_xfer.analyzer_rule(run, ctx)
